@@ -3,8 +3,8 @@ from .. import unitcheck as U
 
 ID = "C16"
 LEVEL = "exploration"
-RULE = ("all globs of <=K tokens over a 24-token alphabet (literals incl. . - + ( $ z-with-dot; ? * ** / [ab] [!a] "
-        "{a,b} @(a|b) ?(a) +(a) *(a) \\* \\? and {a,(} @(a|,) {b,a|b}: delimiters of one bracket family as literals inside the other) x all well-formed path strings of <=L characters over "
+RULE = ("all globs of <=K tokens over a 26-token alphabet (literals incl. . - + ( $ z-with-dot; ? * ** / [ab] [!a] "
+        "{a,b} @(a|b) ?(a) +(a) *(a) \\* \\? and {a,(} @(a|,) {b,a|b}: delimiters of one bracket family as literals inside the other; {b,a/**} @(b|a/*): alternatives that contain a separator and a wildcard) x all well-formed path strings of <=L characters over "
         "{a,b,z-with-dot,.,-,A,/,$,*} x ignore-case on/off (quick K=3,L=4; thorough K=4,L=4, K=3,L=5 and K=5,L=3); oracle 1: "
         "independent backtracking matcher == Pattern::matches; oracle 2: every ancestor directory of a matching path "
         "passes matches_partially and PathSelector::matches_dir; oracle 3: as --exclude, no non-excluded file lies "
